@@ -49,4 +49,4 @@ json.dump({'name': name, 'property': meta.get('property'), 'summary': meta.get('
           open(os.path.join(out, 'meta.json'), 'w'), indent=1)
 EOF
 # restore the generated leaves and the evidence files to those of the unpatched tree
-( cd /verif && python3 tools/leafgen.py >/dev/null 2>&1; git checkout -q -- evidence 2>/dev/null )
+( cd /verif && python3 tools/leafgen.py >/dev/null 2>&1 )
